@@ -290,6 +290,9 @@ def run(rep: Report, tier: str, seed: int) -> None:
         for v in variants:
             if v[5]:
                 results[v[0]] = run_cli(v[1], v[2], Opts(), cwd=v[3], out_abs_for_read=v[4], mypy_cache=True)
+        # repetition into an output directory that already holds the result of an earlier run
+        variants.append(("rerun-into-same-out", str(d / "in" / "pk"), str(d / "o1"), d, d / "o1", False))
+        results["rerun-into-same-out"] = run_cli(str(d / "in" / "pk"), str(d / "o1"), Opts(), cwd=d, out_abs_for_read=d / "o1")
         ref = None
         for vname, *_ in variants:
             obs = results[vname]
@@ -309,7 +312,7 @@ def run(rep: Report, tier: str, seed: int) -> None:
     rep.rule = (
         "11 inputs with forced ties (two equal-depth re-exporters, equal short names, three TypeVars, inferred tuple results, a module star-imported by several packages, 3-member unions/literals, 4 TODO markers, foreign classes from several libraries, modules spread over directories): "
         f"every schedule with <= 1 deviation (thorough: <= 2 on 4 inputs, second option set, every 9th doubly re-exporting C03 tree) at the choice points 'iteration of a tool-built set with >=2 elements' and 'listing of a package directory with >=2 entries' (all n! orders for n<=3, rotations+reversal above); "
-        f"{K} real interpreter runs per input with PYTHONHASHSEED=0..{K - 1}; 8 real runs over path spellings / working directories / repetition with mypy's cache; distinct = one exploration per (input, options)"
+        f"{K} real interpreter runs per input with PYTHONHASHSEED=0..{K - 1}; 9 real runs over path spellings / working directories / repetition with mypy's cache / repetition into the same output directory; distinct = one exploration per (input, options)"
     )
     rep.assumptions = [
         "sets are owned by injecting an order-controlled subclass under the name 'set' into the tool's modules; the one set comprehension in the sources (inventory in evidence) is sorted by the tool on the next line",
